@@ -1,7 +1,7 @@
 (* Witness schedules (evaluated by vm_compute) for the statements that the faithful model refutes. *)
 From Coq Require Import List ZArith Bool.
 From RecordUpdate Require Import RecordSet.
-From MV Require Import Model.Proxy Model.ProxySpec Gen.ProxyTokens.
+From MV Require Import Model.Proxy Model.ProxySpec Proofs.ProxySrc.
 Import ListNotations RecordSetNotations.
 Open Scope Z_scope.
 
@@ -27,15 +27,15 @@ Definition outcome_ok (c : cfg) (sched : list step) (s : st) (o : list out) : bo
 Definition cfg_loop : cfg := plain_cfg <| c_num_retries := 12%nat |> <| c_pool := repeat PoolConnFail 14 |>.
 Definition sched_loop : list step := drive ++ [Env EvGlobal].   (* the global timer still fires: nobody is left to wake *)
 Lemma witness_loop :
-    quiescent (final proxy_src cfg_loop sched_loop) = true /\ wdone (final proxy_src cfg_loop sched_loop) = true /\ cleaned (final proxy_src cfg_loop sched_loop) = false /\ g_started (summ proxy_src cfg_loop sched_loop) = false /\ x_loop (final proxy_src cfg_loop sched_loop) = true /\
-  outcome_ok cfg_loop sched_loop (final proxy_src cfg_loop sched_loop) (trace proxy_src cfg_loop sched_loop) = false.
+    quiescent (final src_tree cfg_loop sched_loop) = true /\ wdone (final src_tree cfg_loop sched_loop) = true /\ cleaned (final src_tree cfg_loop sched_loop) = false /\ g_started (summ src_tree cfg_loop sched_loop) = false /\ x_loop (final src_tree cfg_loop sched_loop) = true /\
+  outcome_ok cfg_loop sched_loop (final src_tree cfg_loop sched_loop) (trace src_tree cfg_loop sched_loop) = false.
 Proof. vm_compute. repeat split; reflexivity. Qed.
 
 (* S17: request with a body, the first connection attempt fails, the retry goes out, the upstream stays silent *)
 Definition cfg_nog : cfg := plain_cfg <| c_data := true |> <| c_pool := [PoolConnFail] |>.
 Lemma witness_nog :
-    quiescent (final proxy_src cfg_nog drive) = true /\ wdone (final proxy_src cfg_nog drive) = false /\ ph (final proxy_src cfg_nog drive) = PWaitNotify /\ global_armed (final proxy_src cfg_nog drive) = false /\ try_armed (final proxy_src cfg_nog drive) = None /\
-  x_nog (final proxy_src cfg_nog drive) = true /\ outcome_ok cfg_nog drive (final proxy_src cfg_nog drive) (trace proxy_src cfg_nog drive) = false.
+    quiescent (final src_tree cfg_nog drive) = true /\ wdone (final src_tree cfg_nog drive) = false /\ ph (final src_tree cfg_nog drive) = PWaitNotify /\ global_armed (final src_tree cfg_nog drive) = false /\ try_armed (final src_tree cfg_nog drive) = None /\
+  x_nog (final src_tree cfg_nog drive) = true /\ outcome_ok cfg_nog drive (final src_tree cfg_nog drive) (trace src_tree cfg_nog drive) = false.
 Proof. vm_compute. repeat split; reflexivity. Qed.
 
 (* S19: the response (503) is in, the global timer expires before the worker has looked at it (CAS lost), the worker retries:
@@ -43,7 +43,7 @@ Proof. vm_compute. repeat split; reflexivity. Qed.
 Definition cfg_lostg : cfg := plain_cfg <| c_retry_on := true |>.
 Definition sched_lostg : list step := repeat Worker 12 ++ [Env (EvUpResp 0 503 false false); Env EvGlobal] ++ drive.
 Lemma witness_lostg :
-    quiescent (final proxy_src cfg_lostg sched_lostg) = true /\ wdone (final proxy_src cfg_lostg sched_lostg) = false /\ ph (final proxy_src cfg_lostg sched_lostg) = PWaitNotify /\ x_nog (final proxy_src cfg_lostg sched_lostg) = true /\ outcome_ok cfg_lostg sched_lostg (final proxy_src cfg_lostg sched_lostg) (trace proxy_src cfg_lostg sched_lostg) = false.
+    quiescent (final src_tree cfg_lostg sched_lostg) = true /\ wdone (final src_tree cfg_lostg sched_lostg) = false /\ ph (final src_tree cfg_lostg sched_lostg) = PWaitNotify /\ x_nog (final src_tree cfg_lostg sched_lostg) = true /\ outcome_ok cfg_lostg sched_lostg (final src_tree cfg_lostg sched_lostg) (trace src_tree cfg_lostg sched_lostg) = false.
 Proof. vm_compute. repeat split; reflexivity. Qed.
 
 (* S18: TerminateStream, then an upstream reset is seen by the processError of phase UpFilter *)
@@ -51,22 +51,22 @@ Definition cfg_upf : cfg := plain_cfg <| c_recv := [{| f_phase := 0%nat; f_code 
 Definition sched_upf : list step :=
   repeat Worker 12 ++ [Env (EvTerminate 403); Worker; Env (EvUpReset 0 RsRemoteReset)] ++ repeat Worker 6.
 Lemma witness_upf :
-    quiescent (final proxy_src cfg_upf sched_upf) = true /\ wdone (final proxy_src cfg_upf sched_upf) = true /\ cleaned (final proxy_src cfg_upf sched_upf) = false /\ g_started (summ proxy_src cfg_upf sched_upf) = false /\ x_upf (final proxy_src cfg_upf sched_upf) = true /\
-  outcome_ok cfg_upf sched_upf (final proxy_src cfg_upf sched_upf) (trace proxy_src cfg_upf sched_upf) = false.
+    quiescent (final src_tree cfg_upf sched_upf) = true /\ wdone (final src_tree cfg_upf sched_upf) = true /\ cleaned (final src_tree cfg_upf sched_upf) = false /\ g_started (summ src_tree cfg_upf sched_upf) = false /\ x_upf (final src_tree cfg_upf sched_upf) = true /\
+  outcome_ok cfg_upf sched_upf (final src_tree cfg_upf sched_upf) (trace src_tree cfg_upf sched_upf) = false.
 Proof. vm_compute. repeat split; reflexivity. Qed.
 
 (* --- the two repaired defects, shown on the source switches set back --- *)
-Definition src_unguarded : srcp := proxy_src <| reset_guarded := false |>.
+Definition src_unguarded : srcp := src_tree <| reset_guarded := false |>.
 Definition cfg_breaker : cfg := plain_cfg <| c_max_retries := 3 |>.
 Definition sched_plain : list step := repeat Worker 12 ++ [Env (EvUpResp 0 200 false false)] ++ repeat Worker 8.
 Lemma witness_unguarded :
     wdone (final src_unguarded cfg_breaker sched_plain) = true /\ cleaned (final src_unguarded cfg_breaker sched_plain) = true /\ g_res (summ src_unguarded cfg_breaker sched_plain) = -4 /\ rc (final src_unguarded cfg_breaker sched_plain) = -4.
 Proof. vm_compute. repeat split; reflexivity. Qed.
 Lemma witness_guarded :
-    wdone (final (proxy_src <| reset_guarded := true |>) cfg_breaker sched_plain) = true /\ cleaned (final (proxy_src <| reset_guarded := true |>) cfg_breaker sched_plain) = true /\ g_res (summ (proxy_src <| reset_guarded := true |>) cfg_breaker sched_plain) = 0 /\ g_res_min (summ (proxy_src <| reset_guarded := true |>) cfg_breaker sched_plain) = 0.
+    wdone (final (src_tree <| reset_guarded := true |>) cfg_breaker sched_plain) = true /\ cleaned (final (src_tree <| reset_guarded := true |>) cfg_breaker sched_plain) = true /\ g_res (summ (src_tree <| reset_guarded := true |>) cfg_breaker sched_plain) = 0 /\ g_res_min (summ (src_tree <| reset_guarded := true |>) cfg_breaker sched_plain) = 0.
 Proof. vm_compute. repeat split; reflexivity. Qed.
 
-Definition src_keep_again : srcp := proxy_src <| direct_clears_again := false |>.
+Definition src_keep_again : srcp := src_tree <| direct_clears_again := false |>.
 Definition cfg_hc : cfg :=
   plain_cfg <| c_recv := [{| f_phase := 1%nat; f_code := 403; f_verdicts := [VHijackCont] |}; {| f_phase := 1%nat; f_code := 0; f_verdicts := [VReMatch] |}] |>.
 Lemma witness_keep_again :
@@ -74,10 +74,10 @@ Lemma witness_keep_again :
   g_reply_kind (summ src_keep_again cfg_hc sched_plain) = Some (KUp, 200).
 Proof. vm_compute. repeat split; reflexivity. Qed.
 Lemma witness_clear_again :
-    g_denied (summ (proxy_src <| direct_clears_again := true |>) cfg_hc sched_plain) = true /\ g_new (summ (proxy_src <| direct_clears_again := true |>) cfg_hc sched_plain) = 0%nat /\ g_reply_kind (summ (proxy_src <| direct_clears_again := true |>) cfg_hc sched_plain) = Some (KHijack, 403).
+    g_denied (summ (src_tree <| direct_clears_again := true |>) cfg_hc sched_plain) = true /\ g_new (summ (src_tree <| direct_clears_again := true |>) cfg_hc sched_plain) = 0%nat /\ g_reply_kind (summ (src_tree <| direct_clears_again := true |>) cfg_hc sched_plain) = Some (KHijack, 403).
 Proof. vm_compute. repeat split; reflexivity. Qed.
 
-Definition src_keep_retry : srcp := proxy_src <| direct_cancels_retry := false |>.
+Definition src_keep_retry : srcp := src_tree <| direct_cancels_retry := false |>.
 Definition cfg_leak : cfg := plain_cfg <| c_max_retries := 2 |> <| c_pool := [PoolConnFail] |>
   <| c_recv := [{| f_phase := 0%nat; f_code := 403; f_verdicts := [] |}] |>.
 (* TerminateStream while the first connection attempt is under way (the worker is about to run phase DownRecvHeader) *)
@@ -87,6 +87,25 @@ Lemma witness_keep_retry :
     wdone (final src_keep_retry cfg_leak sched_leak) = true /\ cleaned (final src_keep_retry cfg_leak sched_leak) = true /\ g_res (summ src_keep_retry cfg_leak sched_leak) = 1 /\ g_reply_kind (summ src_keep_retry cfg_leak sched_leak) = Some (KUp, 200).
 Proof. vm_compute. repeat split; reflexivity. Qed.
 Lemma witness_cancel_retry :
-    wdone (final (proxy_src <| direct_cancels_retry := true |>) cfg_leak sched_leak) = true /\ cleaned (final (proxy_src <| direct_cancels_retry := true |>) cfg_leak sched_leak) = true /\ g_res (summ (proxy_src <| direct_cancels_retry := true |>) cfg_leak sched_leak) = 0 /\ g_reply_kind (summ (proxy_src <| direct_cancels_retry := true |>) cfg_leak sched_leak) = Some (KHijack, 403) /\
-  g_new (summ (proxy_src <| direct_cancels_retry := true |>) cfg_leak sched_leak) = 1%nat.
+    wdone (final (src_tree <| direct_cancels_retry := true |>) cfg_leak sched_leak) = true /\ cleaned (final (src_tree <| direct_cancels_retry := true |>) cfg_leak sched_leak) = true /\ g_res (summ (src_tree <| direct_cancels_retry := true |>) cfg_leak sched_leak) = 0 /\ g_reply_kind (summ (src_tree <| direct_cancels_retry := true |>) cfg_leak sched_leak) = Some (KHijack, 403) /\
+  g_new (summ (src_tree <| direct_cancels_retry := true |>) cfg_leak sched_leak) = 1%nat.
+Proof. vm_compute. repeat split; reflexivity. Qed.
+
+(* the pooled filter-chain object: with a Put that leaves the cursor, the second request starts behind its BeforeRoute deny filter *)
+Definition src_no_put_reset : srcp := src_tree <| put_resets_cursor := false |>.
+Definition cfg_park : cfg :=   (* AfterRoute filter #1 asks for re-choose (ignored there); no route: the stream ends with the cursor at 1 *)
+  plain_cfg <| c_route := RouteNone |>
+            <| c_recv := [{| f_phase := 0%nat; f_code := 0; f_verdicts := [] |}; {| f_phase := 1%nat; f_code := 0; f_verdicts := [VReChoose] |}] |>.
+Definition cfg_deny_head : cfg := plain_cfg <| c_recv := [{| f_phase := 0%nat; f_code := 403; f_verdicts := [VHijack] |}] |>.
+Lemma witness_stale_cursor :
+  rcursor (final src_no_put_reset cfg_park drive) = 1%nat /\
+  (let s0 := next_request src_no_put_reset (final src_no_put_reset cfg_park drive) 0 in
+   let r := run src_no_put_reset cfg_deny_head s0 sched_plain in
+   rcursor s0 = 1%nat /\ g_new (gs_outs gs0 (snd r)) = 1%nat /\ filter (fun o => match o with OFilterRecv _ _ _ => true | _ => false end) (snd r) = [] /\
+   g_reply_kind (gs_outs gs0 (snd r)) = Some (KUp, 200)).
+Proof. vm_compute. repeat split; reflexivity. Qed.
+Lemma witness_fresh_cursor :
+  let s0 := next_request src_tree (final src_tree cfg_park drive) 0 in
+  let r := run src_tree cfg_deny_head s0 sched_plain in
+  rcursor s0 = 0%nat /\ g_new (gs_outs gs0 (snd r)) = 0%nat /\ g_reply_kind (gs_outs gs0 (snd r)) = Some (KHijack, 403).
 Proof. vm_compute. repeat split; reflexivity. Qed.
